@@ -111,21 +111,23 @@ Print Assumptions C04_cache_entries_consistent.
 
 (* The general equality "cache on = cache off", where it is TRUE.  For every module WITHOUT a
    left-recursive leader, run quietly (verbose off) from any state with error mode off and an empty
-   cache, every method, token list, interpretation of actions and fuel: whenever the uncached run
+   cache -- or with error mode ON if the module has no *_without_invalid method --, every method, token
+   list, interpretation of actions and fuel: whenever the uncached run
    terminates, the cached run returns the same outcome -- the same value, the same failure, or the
    same exception INCLUDING the token a SyntaxError points at -- and on a normal outcome the same
    final position and the same furthest token fetched (what make_syntax_error reports for a soft
    failure).  (Proofs/FuelMono.v: more fuel never changes an answer; Proofs/CacheStable.v: the
    uncached run reads its state only through the position; Proofs/CacheSim.v: simulation with the
    invariant that every memo entry is what the uncached invocation at its position returns.)
-   "_partial": the full statement also quantifies over verbose tracing and error mode, where it is
-   REFUTED above (C04_verbose_refuted, C04_cache_refuted_in_error_mode), and over left-recursive
+   "_partial": the full statement also quantifies over verbose tracing and over error mode with
+   *_without_invalid methods, where it is REFUTED above (C04_verbose_refuted,
+   C04_cache_refuted_in_error_mode: exactly the excluded combination), and over left-recursive
    leaders, whose seed growing reads and overwrites the cache by design (Props/C02.v and the
    four-configuration correspondence cover those). *)
 From Pegen Require Import Proofs.FuelMono Proofs.CacheStable Proofs.CacheSim.
 Theorem C04_cache_transparent_partial :
   forall K toks M aeval ex td fuel n s,
-  no_left_rec M = true -> invalid s = false -> cache s = [] ->
+  no_left_rec M = true -> (invalid s = false \/ no_wi M = true) -> cache s = [] ->
   let rU := run K toks false false M aeval ex td fuel n s in
   let rC := run K toks false true M aeval ex td fuel n s in
   fst rU <> OutOfFuel ->
@@ -133,9 +135,9 @@ Theorem C04_cache_transparent_partial :
   (forall v, fst rU = Ok v -> pos (snd rC) = pos (snd rU) /\ fetched (snd rC) = fetched (snd rU)).
 Proof.
   intros K toks M aeval ex td fuel n s Hn Hi Hc rU rC Hd.
-  assert (Hs : sim K toks M aeval ex td s s).
+  assert (Hs : sim K toks M aeval ex td (invalid s) s s).
   { unfold sim. repeat split; auto. rewrite Hc. intros k r H. discriminate H. }
-  destruct (cache_transparent K toks M aeval ex td Hn fuel n s s Hs Hd) as (Ho & Hok).
+  destruct (cache_transparent K toks M aeval ex td Hn (invalid s) Hi fuel n s s Hs Hd) as (Ho & Hok).
   split; [exact Ho|]. intros v Hv. destruct (Hok v Hv) as (Hp & Hf & _). split; assumption.
 Qed.
 Print Assumptions C04_cache_transparent_partial.
